@@ -6,6 +6,7 @@ import (
 
 	"github.com/paulmach/osm"
 
+	"verif/internal/eq"
 	"verif/internal/fw"
 	"verif/internal/gen"
 	"verif/internal/hist"
@@ -90,6 +91,38 @@ func c11One(res *fw.Result, h *hist.H, r *gen.R, label string) *hist.Run {
 	res.Add("errors_justified", int64(st.ErrorsJustified))
 	res.Add("refs_left_untouched_checked", int64(st.Untouched))
 	res.Add("outcome_"+c11Outcome(run), 1)
+	res.Add("reverse_flags_checked", int64(st.ReverseChecked))
+	res.Add("reverse_flags_expected_true", int64(st.ReverseTrue))
+	res.Add("timetravel_orientation_states", int64(st.OrientationStates))
+	// the same history through the datasource's "children" configuration must give the same result
+	{
+		run2 := h.ExecuteChildren()
+		res.Event(int64(run2.NCalls))
+		res.Add("aschildren_runs_compared", 1)
+		kindOf := "rel/"
+		if h.Way {
+			kindOf = "way/"
+		}
+		switch {
+		case run2.Panic != "" && run.Panic == "":
+			res.Violate("C11/aschildren-differs/"+kindOf+h.Regime.String()+"/panic", "annotation panicked with the AsChildren datasource only: "+run2.Panic, map[string]any{"history": h})
+		case (run2.Err == nil) != (run.Err == nil) || (run2.Panic == "") != (run.Panic == ""):
+			// (which of several inconsistencies is reported may depend on map order: only success / failure is compared)
+			res.Violate("C11/aschildren-differs/"+kindOf+h.Regime.String()+"/outcome", fmt.Sprintf("outcome %s with the history datasource, %s with the AsChildren datasource", c11Outcome(run), c11Outcome(run2)),
+				map[string]any{"history": h, "plain": run.Observed(), "aschildren": run2.Observed()})
+		case run.Err == nil && run.Panic == "":
+			var a, b string
+			if h.Way {
+				a, b = eq.Dump(run.Ways), eq.Dump(run2.Ways)
+			} else {
+				a, b = eq.Dump(run.Relations), eq.Dump(run2.Relations)
+			}
+			if a != b {
+				res.Violate("C11/aschildren-differs/"+kindOf+h.Regime.String()+"/result", "the AsChildren datasource configuration gives a different result: "+eq.Diff(a, b),
+					map[string]any{"history": h, "plain": run.Observed(), "aschildren": run2.Observed()})
+			}
+		}
+	}
 	for _, f := range fs {
 		res.Violate("C11/"+f.Class+"/"+f.Shape, f.Msg, map[string]any{"history": h, "observed": run.Observed(), "label": label})
 	}
